@@ -342,6 +342,52 @@ class SimLock:
         self.release()
 
 
+class SimRLock(SimLock):
+    """re-entrant variant (threading.RLock created inside mako code during a run)"""
+
+    def __init__(self, sched, name="rlock"):
+        SimLock.__init__(self, sched, name)
+        self.depth = 0
+
+    def acquire(self, blocking=True, timeout=-1):
+        me = self.sched.me()
+        if me is not None and self.owner is me:
+            self.depth += 1
+            return True
+        r = SimLock.acquire(self, blocking, timeout)
+        if r:
+            self.depth = 1
+        return r
+
+    def release(self):
+        self.depth -= 1
+        if self.depth <= 0:
+            SimLock.release(self)
+
+    __enter__ = acquire
+
+
+class ThreadingShim:
+    """Stands in for the `threading` module inside mako modules while threads are simulated: every lock the
+    code under test creates is one the scheduler can see (a real lock held by a parked thread would hang the run)."""
+
+    def __init__(self, sched, real):
+        self._sched = sched
+        self._real = real
+        self._n = 0
+
+    def Lock(self):
+        self._n += 1
+        return SimLock(self._sched, "lock#%d" % self._n)
+
+    def RLock(self):
+        self._n += 1
+        return SimRLock(self._sched, "rlock#%d" % self._n)
+
+    def __getattr__(self, name):
+        return getattr(self._real, name)
+
+
 class SimEvent:
     """A counter the scheduler can see threads waiting on: wait(n) blocks until the counter reaches n."""
 
@@ -393,11 +439,21 @@ def make_tracer(sched, traced_files, is_template_file, opcode_codes=(), setitem_
                 a.in_setitem -= 1
         return local
 
+    hot_files = tuple(f for f in traced_files if f.endswith(("/lookup.py", "/util.py")))
+
     def tracer(frame, event, arg):
         if event != "call":
             return None
         co = frame.f_code
         fn = co.co_filename
+        if fn not in traced_files and not is_template_file(fn):
+            # pure-Python library code called from the lookup / LRU code (a key function, heapq, ...) runs
+            # without any lock too: trace it while its caller is one of those frames (one level)
+            back = frame.f_back
+            if back is not None and back.f_trace is not None and back.f_code.co_filename in hot_files \
+                    and not fn.startswith("<") and "/vsim/" not in fn and "/engines/" not in fn:
+                return local
+            return None
         if fn in traced_files or is_template_file(fn):
             if co in opcode_codes:
                 frame.f_trace_opcodes = True
